@@ -127,7 +127,7 @@ pub fn run(seed: u64, count: usize, outdir: &str) -> std::io::Result<i32> {
                     let n = img[s.1 * w + s.0].normal; let gk = gs[k];
                     let want = [gk.dx, gk.dy, gk.dz];
                     let mag = want.iter().fold(1.0f32, |a, b| a.max(b.abs()));
-                    let ok = (0..3).all(|i| (n[i] - want[i]).abs() <= 2e-3 * mag || (n[i].is_nan() && want[i].is_nan()));
+                    let ok = (0..3).all(|i| n[i] == want[i] /* also equal infinities */ || (n[i] - want[i]).abs() <= 2e-3 * mag || (n[i].is_nan() && want[i].is_nan()));
                     nnormals += 1;
                     if !ok { nb += 1; if firstn.is_none() { firstn = Some(format!("pixel ({}, {}) voxel {}: normal {:?} gradient {:?}", s.0, s.1, s.2, n, want)); } }
                 }
